@@ -3,6 +3,7 @@
 package pppoe
 
 import (
+	"bytes"
 	"context"
 	"encoding/json"
 	"fmt"
@@ -27,7 +28,7 @@ import (
 func (s *c12SB) AddPPPoESession(sessionID uint16, clientIP net.IP, clientMAC, localMAC net.HardwareAddr, encapIfIndex uint32,
 	outerVLAN, innerVLAN uint16, decapVrfID uint32, pppMTU uint16, policy southbound.MSSClampPolicy) (uint32, error) {
 	i := int(sessionID) - 1
-	if len(clientMAC) != 6 || int(clientMAC[5]) != i || int(innerVLAN) != 10+i || outerVLAN != 100 || encapIfIndex != 10 ||
+	if i < 0 || c12IdxOfKey(clientMAC, outerVLAN, innerVLAN) != i || encapIfIndex != c12Ident(i).encap ||
 		len(localMAC) != 6 || localMAC[5] != 0x33 {
 		s.log.add("BADADD%d", i)
 	}
@@ -73,6 +74,7 @@ func (p *c12PPPoE) newComponent(h *c12Handle) {
 	c12Kpd = e.kpd
 	ifMgr := ifmgr.New()
 	ifMgr.Add(&ifmgr.Interface{SwIfIndex: 10, SupSwIfIndex: 2, Name: "TenGigE0/0.100", Type: ifmgr.IfTypeSub, OuterVlanID: 100})
+	ifMgr.Add(&ifmgr.Interface{SwIfIndex: 11, SupSwIfIndex: 2, Name: "TenGigE0/0.200", Type: ifmgr.IfTypeSub, OuterVlanID: 200})
 	ifMgr.Add(&ifmgr.Interface{SwIfIndex: 2, Name: "TenGigE0/0", Type: ifmgr.IfTypeHardware, MAC: []byte{0x52, 0x54, 0x00, 0x11, 0x22, 0x33}})
 	// a PPPoE packet is already waiting when the component starts (unbuffered channel); it has no PPPoE layer and
 	// is dropped by handlePacket
@@ -108,7 +110,10 @@ func (p *c12PPPoE) live(i int) bool { return p.get(i) != nil }
 func (p *c12PPPoE) create(n c12New, v4, v6 net.IP, pd *net.IPNet, t0 time.Time, swif uint32) bool {
 	s := &SessionState{
 		SessionID: c12SessID(n.idx), AcctSessionID: fmt.Sprintf("acct%d", n.idx), PPPoESessionID: uint16(n.idx + 1),
-		MAC: net.HardwareAddr{2, 0, 0, 0, 0, byte(n.idx)}, OuterVLAN: 100, InnerVLAN: uint16(10 + n.idx), EncapIfIndex: 10,
+		MAC: append(net.HardwareAddr(nil), c12Ident(n.idx).mac...), OuterVLAN: c12Ident(n.idx).svlan,
+		InnerVLAN: c12Ident(n.idx).cvlan, EncapIfIndex: c12Ident(n.idx).encap,
+		HostUniq: []byte{7, byte(n.idx)}, AgentCircuitID: fmt.Sprintf("circuit-%d", n.idx),
+		AgentRemoteID: fmt.Sprintf("remote-%d", n.idx), Attributes: map[string]string{"k": fmt.Sprintf("v%d", n.idx)},
 		SwIfIndex: swif, Phase: ppp.PhaseAuthenticate, ServiceName: "t-", IPv4Address: v4, IPv6Address: v6, IPv6Prefix: pd,
 		Username: fmt.Sprintf("u%d", n.idx), LCPMagic: 0x1000 + uint32(n.idx), CreatedAt: t0, BoundAt: c12Time(t0, n.age4),
 		ServiceGroup: svcgroup.ServiceGroup{Name: "sg", URPF: "strict", Unnumbered: "loop0"}, NegotiatedPPPMTU: 1492,
@@ -152,11 +157,13 @@ func (p *c12PPPoE) release(i int) {
 
 func (p *c12PPPoE) show(s *SessionState, kpd int) string {
 	i, _ := strconv.Atoi(c12Idx(s.SessionID))
-	id := "ok"
-	if len(s.MAC) != 6 || int(s.MAC[5]) != i || s.OuterVLAN != 100 || int(s.InnerVLAN) != 10+i || int(s.PPPoESessionID) != i+1 ||
+	id := c12KeyStr(s.MAC, s.OuterVLAN, s.InnerVLAN) // the full key, as restored
+	if s.EncapIfIndex != c12Ident(i).encap || int(s.PPPoESessionID) != i+1 ||
 		s.Username != fmt.Sprintf("u%d", i) || s.AcctSessionID != fmt.Sprintf("acct%d", i) || s.ServiceGroup.URPF != "strict" ||
-		s.LCPMagic != 0x1000+uint32(i) || s.NegotiatedPPPMTU != 1492 {
-		id = "IDENTITY"
+		s.LCPMagic != 0x1000+uint32(i) || s.NegotiatedPPPMTU != 1492 ||
+		!bytes.Equal(s.HostUniq, []byte{7, byte(i)}) || s.AgentCircuitID != fmt.Sprintf("circuit-%d", i) ||
+		s.AgentRemoteID != fmt.Sprintf("remote-%d", i) || s.Attributes["k"] != fmt.Sprintf("v%d", i) {
+		id += "!IDENTITY"
 	}
 	fl := ""
 	if s.Phase == ppp.PhaseOpen {
@@ -176,7 +183,13 @@ func (p *c12PPPoE) dumpLive(kpd int) string {
 	out := []string{}
 	p.c.sessionMu.RLock()
 	for _, s := range p.c.sessionIDIndex {
-		out = append(out, p.show(s, kpd))
+		line := p.show(s, kpd)
+		// the protocol's own lookups (MAC, S-VLAN, C-VLAN / PPPoE session id / accounting id) must lead to THIS session
+		if p.c.sessions[p.c.sessionKey(s.MAC, s.OuterVLAN, s.InnerVLAN)] != s || p.c.sidIndex[s.PPPoESessionID] != s ||
+			p.c.acctSessionIndex[s.AcctSessionID] != s {
+			line += "!KEYMISS"
+		}
+		out = append(out, line)
 	}
 	p.c.sessionMu.RUnlock()
 	sort.Slice(out, func(a, b int) bool {
